@@ -37,7 +37,9 @@ FLOATS = ["1.5", "-0.25", ".5", "5.", "1.3e9", "1.0E-3", "+2.50"]
 PLAINS = ["Foo", "/Path/To/123.txt", "A+/-B", "This is a string.", "two words", "007abc", "1.50x", "x1.5", "data_2.csv", "C:\\path\\to\\thing",
           "a.b.c", "9lives now", "-dash start", "True", "e5"]
 QSTRS = ["plain text", "", "with, delims: = ( ) [ ] #", 'say "hi"', "it's", "tab\there", "line\nbreak", "back\\slash", "caf\u00e9", "\u4e2d\u6587",
-         "/Path/To/123.txt", "C:\\temp\\new.csv", " padded ", "ends with quote\"", "A+, \n", "\\", "emoji \U0001F600"]
+         "/Path/To/123.txt", "C:\\temp\\new.csv", " padded ", "ends with quote\"", "A+, \n", "\\", "emoji \U0001F600",
+         # escapes together with characters outside Latin-1 (the decoding path of t_STRING sees both)
+         "\u0394 area\n(km\u00b2)", "\u4e2d\u6587\\path", "say \"\u03a9\"", "\U0001F600\ttab"]
 
 
 def esc(content, q):
